@@ -56,7 +56,7 @@ func (p *prop) Run(line string) core.Outcome {
 	}
 	f := strings.Split(line, " ")
 	switch f[0] {
-	case "adapt", "madapt", "perm", "eqv", "leak", "site", "hist", "argidx", "bind", "rename", "sopts", "lnp", "hp", "dbind", "nr", "kbind", "nmeq", "dadapt", "fauth":
+	case "adapt", "madapt", "perm", "eqv", "leak", "site", "hist", "argidx", "bind", "rename", "sopts", "lnp", "hp", "dbind", "nr", "kbind", "nmeq", "dadapt", "fauth", "imp":
 		// cases that run the adapter can die of a fatal (unrecoverable) Go error
 		switch noteCase(line) {
 		case "crash":
@@ -164,6 +164,10 @@ func (p *prop) Run(line string) core.Outcome {
 	case "fauth":
 		if len(f) == 2 {
 			return runFauth(line, f[1])
+		}
+	case "imp":
+		if len(f) == 2 {
+			return runImp(line, f[1])
 		}
 	case "dadapt":
 		if len(f) == 2 {
@@ -322,6 +326,12 @@ func runAdapt(line, text string, mutated bool) core.Outcome {
 		return o
 	}
 	o.Tags = append(o.Tags, "adapt:accepted")
+	if r.dropped != "" {
+		// already reported by checkDropped: the hole in the output ("handle":[null]) is what strict validity would
+		// refuse next ('module name not specified'); one defect, one report
+		o.Tags = append(o.Tags, "valid:skipped-dropped-module")
+		return o
+	}
 	checkValid(line, text, r.json, mutated, &o)
 	return o
 }
